@@ -31,7 +31,7 @@
 From ASModel Require Import Base State Orderings_gen Step Run Progress Hist Inv InvTl InvProto InvStep Sum StepCases.
 From ASModel Require Import GenDefs Gen1 Gen2 Gen EnvDefs Env4 Env LinDefs Lin2 Lin LinCache.
 From ASModel Require Import Safe Main CchMain CchEx.
-From ASModel Require Import Stale Stale2 StaleC StaleCView StaleCInv StaleCInvEx.
+From ASModel Require Import Stale Stale2 StaleC StaleCView StaleCInv StaleCInvEx Stale3Fresh Stale3FreshEx.
 
 Theorem C16_revalidate :
   forall cf s l c a k x,
@@ -192,7 +192,50 @@ Theorem C16_no_fault_stale3 : forall cf inits progs sched,
                ~ In (EvFault (FDeadDec a)) (snd (step_stale3 cf (St3 cf (init_state inits progs) sched k) t x))).
 Proof. exact StaleCInv28.C16_no_fault_stale3. Qed.
 
+(** ** The same for the run the model driver executes: [step_stale3], all five weakened loads.
+
+    The load_full inside a reloading cache command may itself take a stale first read or stale scans;
+    the value it returns is still one the container held inside the command. *)
+Theorem C16_cache_fresh_stale3 : forall cf inits progs sched t i cm c k pa pb xa tb xb,
+  let s0 := init_state inits progs in
+  RunOKS3 cf inits progs sched ->
+  (forall p, NoCacheMove (St3 cf s0 sched p)) ->
+  never_consumed c s0 ->
+  nth_error (t_prog (thr s0 t)) (N.to_nat i) = Some cm ->
+  cache_cmd_of (St3 cf s0 sched pa) cm c k ->
+  (pa <= pb)%nat ->
+  nth_error sched pa = Some (t, xa) ->
+  t_status (thr (St3 cf s0 sched pa) t) = Running ->
+  t_stack (thr (St3 cf s0 sched pa) t) = [] ->
+  t_cmdi (thr (St3 cf s0 sched pa) t) = i ->
+  nth_error sched pb = Some (tb, xb) ->
+  t_cmdi (thr (St3 cf s0 sched pb) t) = i ->
+  t_cmdi (thr (St3 cf s0 sched (S pb)) t) = i + 1 ->
+  exists v j,
+    hnd (St3 cf s0 sched (S pb)) k = HCache c v /\
+    nth_error (vh (G3 cf s0 sched (S pb)) c) j = Some v /\
+    (vt (G3 cf s0 sched pa) t c <= j)%nat /\
+    (cm = CCacheLoad k -> (vc (G3 cf s0 sched pa) k <= j)%nat) /\
+    nth_error (vh (G3 cf s0 sched (S pb)) c) (vc (G3 cf s0 sched (S pb)) k) = Some v /\
+    (vc (G3 cf s0 sched (S pb)) k = j \/
+     (hnd (St3 cf s0 sched pb) k = HCache c v /\ (vc (G3 cf s0 sched (S pb)) k <= j)%nat)).
+Proof. exact Stale3Fresh10.C16_cache_fresh_stale3. Qed.
+
+Theorem C16_view_handover3 : forall cf s0 sched t c i p1 c' j p2 t' p3 q,
+  wrote3 cf s0 sched p1 t c i -> wrote3 cf s0 sched p2 t c' j -> (p1 < p2)%nat ->
+  acquired3 cf s0 sched p3 t' c' -> (p2 < p3)%nat -> (S p3 <= q)%nat ->
+  (i <= vt (G3 cf s0 sched q) t' c)%nat.
+Proof. exact view_handover3. Qed.
+
+(** Non-vacuity: a run within [RunOKS3] in which ONE cache load takes a stale revalidation (a
+    miss) and then a stale first read inside its load_full. *)
+Theorem C16_stale3_scope_inhabited : RunOKS3 cd_cf cd_inits cd_progs cd_sched.
+Proof. exact RunOKS3_example. Qed.
+
 Print Assumptions C16_cache_fresh_stale.
+Print Assumptions C16_cache_fresh_stale3.
+Print Assumptions C16_view_handover3.
+Print Assumptions C16_stale3_scope_inhabited.
 Print Assumptions C16_no_fault_stale.
 Print Assumptions C16_own_write_seen.
 Print Assumptions C16_view_handover.
